@@ -13,6 +13,7 @@ NAME = "Maven"
 # known classes (ids must be open entries of known/Cxx.jsonl to be counted instead of reported)
 F_C02_ZERO = "F-C02-11"     # 00 is not trimmed like 0
 F_C02_NULLDASH = "F-C02-15"  # a null element that opens a sub-list, directly before -SNAPSHOT
+F_C02_DOTQUAL = "F-C02-24"  # a qualifier attached by '.' next to trimmed zeros
 F_C10_LEADSEP = "F-C10-2"  # canon drops the separator of the first element
 
 
@@ -154,6 +155,10 @@ def domain_flags_wide(ctx, strings):
 
 # ----------------------------------------------------------------------------- C02
 
+DOTTED_BAD = []
+DOTTED_PAIRS = []
+
+
 def c02_strings(ctx, n):
     rng = ctx.rng
     pool = set([b"1-final-SNAPSHOT", b"1-SNAPSHOT", b"1-alpha-0-SNAPSHOT", b"1-alpha-SNAPSHOT", b"0", b"0-alpha", b"0.0-x", b"0.1",
@@ -211,6 +216,32 @@ def c02(ctx):
         if len(ctx.samples) < 3 and n:
             ctx.sample({"system": NAME, "a": strs[0], "b": strs[-1], "go": m[n - 1], "spec": spec[n - 1][1]})
     c02_huge(ctx)
+    DOTTED_BAD[:] = c02_dotted(ctx)
+    # '.'-attached qualifiers: outside the proved domain and outside the validity region of Spec/MavenSpec.v (it is the
+    # area in which ComparableVersion itself changed between Maven releases), so the reference is the INSTALLED
+    # ComparableVersion.  The model of the library's comparison must give Go's answer on every pair; where Go and the
+    # jar disagree and the model agrees with Go, the pair is an instance of the recorded class F-C02-24.
+    mo = mg.model_pairs(ctx, "svm_cmp_maven", DOTTED_PAIRS)
+    goj = ctx.impl("sv_syscompare", [sx([SYS, a, b]) for a, b in DOTTED_PAIRS])
+    nd = 0
+    for (a, b), g, m_ in zip(DOTTED_PAIRS, goj, mo):
+        if not (m_[0] == b"ok" and mg.sign(m_[1]) == mg.sign(int(g))):
+            nd += 1
+            if nd <= 20:
+                ctx.divergence("svm_cmp_maven(dotted qualifier)", {"a": a, "b": b}, g, sx(m_))
+    jar = mg.comparable_version_ref(DOTTED_PAIRS)
+    if jar is None:
+        ctx.notes.append("Maven: '.'-attached qualifiers not compared with ComparableVersion on this run (java or maven-artifact jar absent)")
+    else:
+        ctx.evaluations += len(DOTTED_PAIRS)
+        for (a, b), g, m_, r in zip(DOTTED_PAIRS, goj, mo, jar):
+            if mg.sign(int(g)) != r:
+                dotted = any(re.search(rb"\.[A-Za-z]", x) for x in (a, b))
+                known = F_C02_DOTQUAL if (dotted and m_[0] == b"ok" and mg.sign(m_[1]) == mg.sign(int(g))) else None
+                ctx.violations.append({"what": "Maven: ordering differs from the installed ComparableVersion (qualifier attached by '.')",
+                                       "input": {"system": NAME, "a": a, "b": b}, "observed": int(g), "required": r,
+                                       "kind": "oracle", "known": known})
+        ctx.count("maven:c02:dotted:compared-with-jar", len(DOTTED_PAIRS))
     # tie between strings and the structures of theorem C02_maven_partial
     tie_in = mg.uniq([versions.maven_domain(rng, exclude_release_num=True) for _ in range(ctx.scale(1500, 20000))])
     fl = domain_flags(ctx, tie_in)
@@ -243,6 +274,41 @@ def c02(ctx):
         ctx.count("maven:spec-vs-jar:mismatch", len(bad))
         for a, b, sp, r in bad[:10]:
             ctx.divergence("spec_maven_vs_jar", {"a": a, "b": b, "what": "Spec/MavenSpec.v differs from the installed ComparableVersion on D_mvn"}, r, sp)
+
+
+def c02_dotted(ctx):
+    """a qualifier attached by '.' (JBoss/Spring style: 1.0.0.RC1, 5.0.0.CR1, 2.0.0.M2, 3.1.0.Final, 1.0.0.SNAPSHOT) is in the
+    grammar of the property (numeric prefix + qualifier [+ number] [-SNAPSHOT]) though outside the proved domain D_mvn: compared
+    with the specification pair by pair, against the same numbers written short and long and with '-'"""
+    rng = ctx.rng
+    quals = [b"RC", b"CR", b"M", b"Final", b"GA", b"SNAPSHOT", b"alpha", b"Beta", b"SP", b"jre", b"RELEASE", b"b", b"a", b"rc"]
+    pool = set()
+    for _ in range(ctx.scale(60, 400)):
+        nums = [rng.choice([b"0", b"1", b"2", b"5", b"10"]) for _ in range(rng.choice([1, 2, 2, 3, 3]))]
+        if rng.random() < 0.6:
+            nums = nums[:1] + [b"0"] * (len(nums) - 1)
+        core = b".".join(nums)
+        q = rng.choice(quals)
+        n = rng.choice([b"", b"1", b"2", b"7"]) if q not in (b"Final", b"GA", b"RELEASE", b"SNAPSHOT") else b""
+        for c in {core, core + b".0", nums[0], b".".join(nums[:2])}:
+            pool |= {c, c + b"." + q + n, c + b"-" + q + n}
+            if rng.random() < 0.2 and q != b"SNAPSHOT":
+                pool.add(c + b"." + q + n + b"-SNAPSHOT")
+    pool = sorted(pool)
+    acc = ctx.impl("sv_parse", [sx([SYS, s]) for s in pool])
+    ok = [s for s, a in zip(pool, acc) if a.startswith('("ok"')]
+    pairs = [(rng.choice(ok), rng.choice(ok)) for _ in range(ctx.scale(4000, 60000))]
+    got = ctx.impl("sv_syscompare", [sx([SYS, a, b]) for a, b in pairs])
+    spec = mg.model_pairs(ctx, "svm_spec_maven", pairs)
+    bad = []
+    for (a, b), g, sp in zip(pairs, got, spec):
+        ctx.nontriv((SYS, "c02dot", a, b))
+        if sp[0] == b"ok" and mg.sign(int(g)) != sp[1]:
+            bad.append((a, b, int(g), sp[1]))
+    ctx.count("maven:c02:dotted:strings", len(ok))
+    ctx.count("maven:c02:dotted:pairs", len(pairs))
+    DOTTED_PAIRS[:] = pairs
+    return bad
 
 
 def c02_huge(ctx):
